@@ -120,6 +120,25 @@ func c07(c *Ctx) {
 		}
 		c.Expect(n == 6, nil, enc, "six-units", "expected six unit arms in the encoder")
 	})
+	c.Ob("decoder-length-window", "R2", "decodeTimeout rejects for length only strings shorter than 2 or longer than 9 bytes (one to eight digits plus the unit are accepted)", 2, func() {
+		f := c.fn(tr, "decodeTimeout")
+		size := LenOf(ParamV("s"))
+		n := 0
+		for _, r := range returnsOf(f) {
+			if ConstNil(r.Results[1]) {
+				c.Unreachable(r, "too-short-rejected", CmpInt(size, token.LSS, 2))
+				c.Unreachable(r, "too-long-rejected", CmpInt(size, token.GTR, 9))
+				continue
+			}
+			// error returns that depend on the length only
+			if c.HasFact(r, Truth(CallRes(Callee(tr, "timeoutUnitToDuration"), 1), false)) || c.HasFact(r, NotNil(CallRes(CalleeX("strconv", "ParseUint"), 1))) {
+				continue
+			}
+			n++
+			c.MustFactAny(r, "length-rejection-only-outside-2..9", CmpInt(size, token.LSS, 2), CmpInt(size, token.GTR, 9))
+		}
+		c.Expect(n == 2, nil, f, "two-length-rejections", "expected a too-short and a too-long rejection")
+	})
 	c.Ob("hour-clamp-and-ceil", "R2", "decoder: the product is not computed for hours above the representable maximum (returns MaxInt64 instead); encoder: div adds one exactly when the remainder is positive", 4, func() {
 		f := c.fn(tr, "decodeTimeout")
 		hourC := ConstInt(int64(3600e9))
@@ -220,6 +239,30 @@ func c08(c *Ctx) {
 			} else {
 				c.ArgIs(wb, 1, "otherwise-copies-the-byte", isByteOfMsg)
 			}
+		}
+		// every input byte position produces output: each iteration passes a WriteByte before the index advances
+		var step ssa.Instruction
+		for _, b := range decU.Blocks {
+			for _, in := range b.Instrs {
+				if bo, ok := in.(*ssa.BinOp); ok && bo.Op == token.ADD && ConstInt(1)(bo.Y) {
+					for _, r := range *bo.Referrers() {
+						if ph, isPhi := r.(*ssa.Phi); isPhi && len(loopInit(ph)) >= 1 {
+							step = in
+						}
+					}
+				}
+			}
+		}
+		var idx ssa.Instruction
+		for _, b := range decU.Blocks {
+			for _, in := range b.Instrs {
+				if v, ok := in.(ssa.Value); ok && isByteOfMsg(v) && idx == nil {
+					idx = in
+				}
+			}
+		}
+		if c.Expect(step != nil && idx != nil, nil, decU, "decoder-loop", "decoder loop shape not recognised") {
+			c.MustPass("every-position-writes-a-byte", pathQuery{Fn: decU, Starts: []ssa.Instruction{idx}, Barrier: isCallTo(CalleeX("strings", "Builder.WriteByte")), Target: func(in ssa.Instruction) bool { return in == step }}, idx)
 		}
 		// i += 2 only on the parsed arm
 		for _, in := range instrsWhere(decU, func(in ssa.Instruction) bool { b, ok := in.(*ssa.BinOp); return ok && b.Op == token.ADD && ConstInt(2)(b.Y) }) {
